@@ -256,7 +256,13 @@ def render_attrs(d):
     if traits:
         parts.append("derive(%s)" % ", ".join(traits))
     if d["dflt"]:
-        parts.append("default = %s" % default_src(d))
+        if d.get("default_item"):
+            # hygiene probe: the default is a user constant whose NAME the generated code also uses
+            name, text = d["default_item"]
+            items.append("#[allow(non_upper_case_globals)]\npub const %s: %s = %s;" % (name, "&'static str" if d["fam"] == "string" else inner_type(d), text))
+            parts.append("default = %s" % name)
+        else:
+            parts.append("default = %s" % default_src(d))
     if const:
         parts.append("const_fn")
     if d.get("new_unchecked"):
